@@ -100,7 +100,7 @@ func (e *Engine) trackWrite(key string, ref string) {
 	for _, t := range e.tracks {
 		fresh := false
 		if ref != "" {
-			if n, ok := e.refBirth[ref]; ok && n >= t.start {
+			if n, ok := e.refBirth[ref]; ok && n > t.start {
 				fresh = true
 			}
 		}
@@ -142,6 +142,10 @@ func (e *Engine) heapGet(st *State, key string) string {
 	if hi.kind == "K" {
 		// the current goroutine holds no lock on entry (unless declared `locks held`)
 		return "((as const (Array Int Int)) 0)"
+	}
+	if key == "X|mine" {
+		// no object has been allocated by this activation yet
+		return "((as const (Array Int Bool)) false)"
 	}
 	return e.c.constant(hi.base+"!0", hi.sort)
 }
@@ -363,6 +367,8 @@ func (e *Engine) newRef(st *State, hint string) string {
 	st.heap[k] = r
 	e.nalloc++
 	e.refBirth[r] = e.nalloc
+	mk := e.keyMine()
+	e.heapWrite(st, mk, store(e.heapGet(st, mk), r, "true"), r)
 	return r
 }
 
@@ -776,4 +782,13 @@ func (e *Engine) loadLocQuiet(st *State, loc *Loc) []string {
 	out := e.loadLoc(tmp, loc)
 	e.c.inQuant = save
 	return out
+}
+
+// keyMine: the set of objects allocated by the current activation (not yet shared with other goroutines).
+func (e *Engine) keyMine() string {
+	k := "X|mine"
+	if _, ok := e.heapInfo[k]; !ok {
+		e.regHeap(k, arrSort(SInt, SBool), "mine", "X", nil)
+	}
+	return k
 }
